@@ -24,6 +24,12 @@ Proof.
   intros H. apply memz_in in H. apply in_map_iff in H as [[n i] [E I]]. cbn in E. subst. eauto.
 Qed.
 
+Lemma tables_ok_each T : tables_ok T = true -> t_each T = true.
+Proof.
+  unfold tables_ok. intros H. apply andb_true_iff in H as [H _]. apply andb_true_iff in H as [H _].
+  apply andb_true_iff in H as [H _]. exact H.
+Qed.
+
 (* ---- what tables_ok gives for one row of the names table ---- *)
 Record row_facts (T : ptables) (n : list Z) (i : Z) : Prop := {
   rf_ident : get_ident (t_names T) (compress n) = i;
@@ -37,7 +43,7 @@ Record row_facts (T : ptables) (n : list Z) (i : Z) : Prop := {
 Lemma tables_ok_row T n i : tables_ok T = true -> In (n, i) (t_names T) -> row_facts T n i.
 Proof.
   intros H I. unfold tables_ok in H.
-  apply andb_true_iff in H as [H _]. apply andb_true_iff in H as [H _].
+  apply andb_true_iff in H as [H _]. apply andb_true_iff in H as [H _]. apply andb_true_iff in H as [_ H].
   rewrite forallb_forall in H. specialize (H _ I). unfold name_facts in H.
   repeat (apply andb_true_iff in H; destruct H as [H ?]).
   constructor.
